@@ -51,8 +51,11 @@ def gen_decl(draw, name, classes, keywords=True, rest=True, untyped_ret=False, a
             a["default"] = True
             seen_default = True
         args.append(a)
-    if rest and draw(st.integers(0, 7)) == 0:
+    if rest and draw(st.integers(0, 7 if rest is True else rest)) == 0:
         args.append({"types": draw(gen_type(classes)), "key": None, "default": False, "rest": True})
+        if draw(st.integers(0, 2)) == 0:
+            # trailing required positional after the rest parameter
+            args.append({"types": draw(gen_type(classes, allow_untyped=False)), "key": None, "default": False, "rest": False})
     if keywords:
         nk = draw(st.sampled_from([0, 0, 0, 1, 2]))
         for kname in ["ka", "kb", "kc"][:nk]:
@@ -74,8 +77,10 @@ def gen_config(draw, nclasses=None, overloads=True, extends=True, keywords=True,
         ims = []
         for j in range(draw(st.integers(1, 3))):
             name = "m%d" % j if draw(st.integers(0, 3)) else "%s%d" % (c[0].lower(), j)
-            ims.append(draw(gen_decl(name, classes, keywords, rest, untyped_ret, arrays)))
-            if overloads and draw(st.integers(0, 4)) == 0:
+            has_overload = overloads and draw(st.integers(0, 4)) == 0
+            # overload sets get rest parameters more often (a rest-bound overload next to a fixed-arity one is the interesting shape)
+            ims.append(draw(gen_decl(name, classes, keywords, (2 if has_overload and rest else rest), untyped_ret, arrays)))
+            if has_overload:
                 ims.append(draw(gen_decl(name, classes, keywords, rest, untyped_ret, arrays)))
         cms = [{"name": "new", "args": [], "ret": [c], "block": []}]
         if draw(st.integers(0, 2)) == 0:
@@ -222,10 +227,13 @@ class Model:
     def fits(self, decl, pos, kws):
         """pos: list of sets of classes, kws: dict key -> set of classes.  OK / ERR / MAYBE and the failing reason."""
         args = decl["args"]
-        P = [a for a in args if not a["key"] and not a["rest"]]
-        R = [a for a in args if a["rest"]]
+        pos_args = [a for a in args if not a["key"]]
+        ridx = next((i for i, a in enumerate(pos_args) if a["rest"]), None)
+        P = [a for a in (pos_args if ridx is None else pos_args[:ridx])]
+        AFTER = [] if ridx is None else pos_args[ridx + 1:]
+        R = [] if ridx is None else [pos_args[ridx]]
         K = {a["key"]: a for a in args if a["key"]}
-        mn = len([a for a in P if not a["default"]])
+        mn = len([a for a in P if not a["default"]]) + len(AFTER)
         mx = None if R else len(P)
         if len(pos) < mn or (mx is not None and len(pos) > mx):
             return "ERR", "count"
@@ -237,8 +245,13 @@ class Model:
                 res = "MAYBE"
         if [k for k in kws if k not in K]:
             res = "MAYBE"       # unknown keyword: not covered by the property's three conditions
+        if AFTER and any(a["default"] for a in P) and len(pos) < len(P) + len(AFTER):
+            return "MAYBE", None    # how defaults and trailing positionals share too few arguments is not modelled
+        n_after = len(AFTER)
         for i, s in enumerate(pos):
-            if i < len(P):
+            if n_after and i >= len(pos) - n_after:
+                r = self.accepts(AFTER[i - (len(pos) - n_after)], s)
+            elif i < len(P):
                 r = self.accepts(P[i], s)
             else:
                 r = "MAYBE"     # rest element types: not asserted
